@@ -195,6 +195,8 @@ def gen(desc):
                 pre = registry_connector.get()[vendor].reverse
                 yield dict(kind="reverse", pattern=row, prefix=pre, key=[rng.choice(POOL) for _ in range(4)])
             yield dict(kind="negate", row=row, prefix=rng.choice(PREFIXES[:4]))
+            if " " in row and "/" not in row and "<" not in row:
+                yield dict(kind="text", row=row, noisy=_noisy_blanks(row, rng), prefix=rng.choice(PREFIXES[:4]))
     else:
         rng = random.Random(desc["seed"])
         for _ in range(desc["n"]):
@@ -211,12 +213,55 @@ def gen(desc):
                            key=[rng.choice(POOL + ["r s t"]) for _ in range(rng.randint(0, 5))])
             else:
                 yield dict(kind="negate", row=row, prefix=pre)
+            if " " in row and rng.random() < 0.5:
+                yield dict(kind="text", row=row, noisy=_noisy_blanks(row, rng), prefix=pre)
+
+
+def _noisy_blanks(row, rng):
+    """the same rule line written with runs of blanks / tabs between its words"""
+    ws = row.split(" ")
+    out = ws[0]
+    for w in ws[1:]:
+        out += rng.choice([" ", "  ", "\t", "   ", " \t"]) + w
+    if out == row:
+        out = ws[0] + "  " + " ".join(ws[1:])
+    return out
+
+
+def _compile_line(line, vendor):
+    """what the three real rule-text compilers make of one rule line: the observable parts of the compiled rule"""
+    from annet.annlib.rbparser import acl, ordering
+    from annet.rulebook import patching as rbp
+    out = {}
+    try:
+        r = next(iter(ordering.compile_ordering_text(line + "\n", vendor).values()))
+        out["ordering"] = [r["attrs"]["direct_regexp"].pattern, r["attrs"]["reverse_regexp"].pattern]
+    except Exception as e:  # noqa
+        out["ordering"] = type(e).__name__
+    try:
+        rules = acl.compile_acl_text(line + "\n", vendor)
+        r = next(iter(rules["local"].values()))
+        a = r["attrs"]
+        out["acl"] = [a["regexp"].pattern, a["reverse_regexp"].pattern if a.get("reverse_regexp") is not None else None]
+    except Exception as e:  # noqa
+        out["acl"] = type(e).__name__
+    try:
+        rules = rbp.compile_patching_text(line + "\n", vendor)
+        r = next(iter(rules["local"].values()))
+        out["patching"] = [r["attrs"]["regexp"].pattern, r["attrs"]["reverse"]]
+    except Exception as e:  # noqa
+        out["patching"] = type(e).__name__
+    return out
 
 
 def impl(case):
     from annet.annlib.rbparser import syntax, acl, ordering
     from annet.rulebook import patching as rbp
     k = case["kind"]
+    if k == "text":
+        setup_worker()
+        vendor = PREFIX_VENDOR[case["prefix"]]
+        return {"noisy": _compile_line(case["noisy"], vendor), "clean": _compile_line(case["row"], vendor)}
     if k == "match":
         try:
             rx = syntax.compile_row_regexp(case["pattern"])
@@ -257,6 +302,8 @@ def impl(case):
 
 def requests(case):
     k = case["kind"]
+    if k == "text":
+        return []        # the clean line's regexps / templates are tied by the match / reverse / negate cases
     if k == "match":
         return [dict(op="c07.match", pattern=case["pattern"], row=case["row"])]
     if k == "reverse":
@@ -390,6 +437,14 @@ def ref_reverse(pattern, prefix):
 
 def oracle(case, r):
     k = case["kind"]
+    if k == "text":
+        out = []
+        for which in ("ordering", "acl", "patching"):
+            if r["noisy"][which] != r["clean"][which]:
+                out.append(dict(sig="rule-line-blank-runs-matter:" + which,
+                                what="the %s compiler reads the rule line %r as %r but the same line with single blanks %r "
+                                     "as %r" % (which, case["noisy"], r["noisy"][which], case["row"], r["clean"][which])))
+        return out
     if k == "match":
         if "err" in r:
             return []
